@@ -51,7 +51,7 @@ def act(op, md=None, size=0, code=0, msg=None, det=0):
 def base(proto, shape, codec="proto", **kw):
     c = dict(proto=proto, shape=shape, codec=codec, comp="", opts=[], sizes=[3] if shape in ("unary", "sstream") else [3, 0],
              script=[], reqmd={}, reqwant={}, maxrecv=0, maxsend=0, sched=[], eofwith=False, trunc=0, trunck=0, timeout="",
-             accept="", tag="", binpad=False, exact=False, corrupt=False, boundary=0, wsclose=False, exactrep=False, reqct="", noise=False, wsfrag=0, wsnobody=False, wscloseas=0, plainframes=False)
+             accept="", tag="", binpad=False, reusemd=False, exact=False, corrupt=False, boundary=0, wsclose=False, exactrep=False, reqct="", noise=False, wsfrag=0, wsnobody=False, wscloseas=0, plainframes=False)
     c.update(kw)
     return c
 
@@ -305,6 +305,11 @@ def fam_md(rnd, tier):
                     b = rnd.choice(bins)
                     reqmd["X-Data-Bin"] = [b] + ([rnd.choice(bins)] if rnd.random() < 0.3 else [])
                     want["x-data-bin"] = reqmd["X-Data-Bin"]
+                    # several binary keys in one request (each decoded value list is its own)
+                    for (name, key) in rnd.sample([("X-More-Bin", "x-more-bin"), ("x-z-bin", "x-z-bin"), ("X-Sig-Bin", "x-sig-bin")], rnd.choice([0, 1, 2, 3])):
+                        reqmd[name] = [rnd.choice(bins) for _ in range(rnd.randint(1, 3))]
+                        want[key] = reqmd[name]
+                    c["reusemd"] = rnd.random() < 0.5
                     c["binpad"] = rnd.random() < 0.5
                     c["reqmd"], c["reqwant"] = reqmd, want
                     sc = recv_all(c)
@@ -319,6 +324,8 @@ def fam_md(rnd, tier):
                     for ch in order:
                         if ch == "h":
                             sc.append(act("sethdr", md=hdr))
+                            if rnd.random() < 0.3:     # a second SetHeader: merged with the first
+                                sc.append(act("sethdr", md={"x-h": ["3"], "x-h2": ["again"], "x-h2-bin": [rnd.choice(bins[1:])]}))
                         elif ch == "t":
                             sc.append(act("settrl", md=trl))
                         elif ch == "s" and shape != "unary":
@@ -336,7 +343,7 @@ def fam_md(rnd, tier):
         for key in reserved:
             for where in ("hdr", "trl", "both"):
                 for shape, fail in [("unary", 0), ("sstream", 0), ("unary", 9), ("sstream", 9)]:
-                    c = base(proto, shape, codec=rnd.choice(["proto", "json"]), tag="md")
+                    c = base(proto, shape, codec=rnd.choice(["proto", "json"]), tag="md", reusemd=rnd.random() < 0.3)
                     val = "666f72676564" if key.endswith("-bin") else "forged"      # hex of "forged" for -bin keys
                     sc = []
                     if where in ("hdr", "both"):
@@ -558,7 +565,7 @@ def run(prop, tier, replay=None):
                 v["signature"].update(code=o["s"]["code"], proto=key[1], codec="proto", comp="", truncated=False, stats=False)
                 viol[("StatusFidelity", "proxy-" + key[1], key[2], "proto", "", "in-range", False, key[3])] = v
         ustat = collections.Counter()
-        if prop in ("C06", "C08") and (not replay or replay_ups):
+        if prop in ("C06", "C08", "C18") and (not replay or replay_ups):
             # HttpBody chunk framing: uploads of every length around multiples of the chunk size, through Recv(),
             # from readers that end with (0, EOF), with (n, EOF), one byte at a time, and through gzip
             ups = []
@@ -583,7 +590,7 @@ def run(prop, tier, replay=None):
             ulines = open(utrace).read().splitlines()
             for f in pr["failed"]:
                 ev = json.loads(ulines[f[1] - 1])
-                if f[2] not in (("UploadComplete", "ChunkLimit") if prop == "C06" else ("ChunkLimit",)):
+                if f[2] not in {"C06": ("UploadComplete", "ChunkLimit"), "C08": ("ChunkLimit",), "C18": ("UploadStats",)}[prop]:
                     continue
                 sig = dict(module="Framing", formula=f[2], codec="body", mode=ev["mode"], code=None)
                 kf = C.match_finding(findings, prop, sig)
@@ -596,8 +603,9 @@ def run(prop, tier, replay=None):
                     continue
                 viol[key] = dict(property=prop, formula=f[2], seed=seed, cases=[ups[ev["case"] - 1]], signature=sig, more=0, replay_driver="conc",
                                  observed=dict(c=dict(tag="upload", proto="http", shape="upload", codec="body", comp=""), cl=dict(http=0, status=dict(present=False), msgs=[]),
-                                               h=dict(recv=[]), crash="upload of %d bytes, chunk %d, reader %s: %d chunks, %d bytes, complete=%s" % (
-                                                   ev["len"], ev["limit"], ev["mode"], ev["chunks"], ev["bytes"], ev["concat"])))
+                                               h=dict(recv=[]), crash="upload of %d bytes, chunk %d, reader %s: %d chunks, %d bytes, complete=%s; stats events in=%d out=%d begin=%d end=%d" % (
+                                                   ev["len"], ev["limit"], ev["mode"], ev["chunks"], ev["bytes"], ev["concat"],
+                                                   ev.get("inpayloads", -1), ev.get("outpayloads", -1), ev.get("begins", -1), ev.get("ends", -1))))
         for fid, n in sorted(known.items()):
             f = next(x for x in findings if x["id"] == fid)
             print("KNOWN-FINDING: property=%s %s (%d observations this run)" % (prop, f["what"], n))
